@@ -233,6 +233,23 @@ pub fn run(ctx: &Ctx) -> i32 {
         st.count("cluster_repeat_cases");
         check_case(ctx, st, &det[i % det.len()], Settings::new(det_settings[i / det.len()]));
     });
+    // medium-sized inputs: many / long test cases, many distinct symbols, long repeats, deep prefix chains
+    {
+        let n = if ctx.thorough { 4000 } else { 300 };
+        let names = ["astral", "mixed", "graph", "clusters"];
+        let als: Vec<Vec<String>> = names.iter().map(|a| gen::alphabet(a)).collect();
+        par_for(&ctx.run, n, |i, st| {
+            let mut rng = Rng::new(seed, 0x111_0000 + i as u64);
+            let tcs = gen::medium_family(&mut rng, &als[i % als.len()]);
+            let tcs: Vec<String> = tcs.into_iter().filter(|t| !t.is_empty()).collect();
+            if tcs.is_empty() {
+                return;
+            }
+            st.count("medium_sized_inputs");
+            let s = Settings::new((if i % 2 == 0 { SURR } else { 0 }) | (if i % 3 == 0 { REP } else { 0 }) | (if i % 7 == 0 { VERB } else { 0 }));
+            check_case(ctx, st, &tcs, s);
+        });
+    }
     let n = if ctx.thorough { 150_000 } else { 8_000 };
     let names = ["astral", "mixed", "graph", "case", "ws", "classes", "clusters"];
     let alphabets: Vec<(String, Vec<String>)> = names.iter().map(|a| (a.to_string(), gen::alphabet(a))).collect();
